@@ -89,7 +89,7 @@ class TaurexChemistry(AutoChemistry):
         self._fill_gases = fill_gases
         self._fill_ratio = ratio
         self._mix_profile = None
-        self._base_metallicity = 0.013
+        self._base_metallicity = base_metallicty
         self.debug('MOLECULES I HAVE %s', self.availableActive)
         self.setup_fill_params()
         self.determine_active_inactive()
